@@ -130,10 +130,6 @@ class GPO(Algorithm):
             else:
                 point = self.goodx
 
-            if self.counter >= 2 * self.half_phase_length:
-                self.phase += 1
-                self.counter = 0
-
         return point
 
     def receive_reward(self, time, reward):
@@ -152,22 +148,24 @@ class GPO(Algorithm):
         -------
         """
         if self.phase > self.N:  # If already finished
-            pass
-        elif self.phase == self.N:
-            maxind = np.argmax(np.array(self.V_reward))
-            self.goodx = self.V_x[maxind]
+            return
 
+        if self.counter < self.half_phase_length:
+            self.curr_algo.receive_reward(time, reward)
         else:
-            if self.counter < self.half_phase_length:
-                self.curr_algo.receive_reward(time, reward)
-            else:
-                self.V_reward[self.phase - 1] = (
-                    self.V_reward[self.phase - 1]
-                    * (self.counter - self.half_phase_length)
-                    + reward
-                ) / (self.counter - self.half_phase_length + 1)
+            self.V_reward[self.phase - 1] = (
+                self.V_reward[self.phase - 1]
+                * (self.counter - self.half_phase_length)
+                + reward
+            ) / (self.counter - self.half_phase_length + 1)
 
         self.counter += 1
+        if self.counter >= 2 * self.half_phase_length:  # the phase is over
+            self.phase += 1
+            self.counter = 0
+            if self.phase > self.N:  # all phases are over, fix the output
+                maxind = np.argmax(np.array(self.V_reward))
+                self.goodx = self.V_x[maxind]
 
     def get_last_point(self):
         """
